@@ -115,6 +115,12 @@ func (f *FileBackend) writeLoop() {
 	dest, err := OpenRotateFile(f.File, f.Mode, f.MaxSize)
 	if err != nil {
 		log.Errorf("Failed create destination file: %s", err)
+
+		// keep consuming (and dropping) events: returning here left every
+		// Send blocked forever on the unbuffered request channel
+		for range f.request {
+		}
+
 		return
 	}
 
